@@ -285,6 +285,9 @@ class SN:
             return SN(a % b)
         return real_mod(self, o)
 
+    def __divmod__(self, o):
+        return self // o, self % o
+
     def __pow__(self, o):
         c = None
         if isinstance(o, (int,)) and not isinstance(o, bool):
